@@ -49,6 +49,7 @@ type State struct {
 	epoch int
 	held  map[string]*heldLock
 	cells map[string]Val // known contents of local cells (captured variables), by cell term
+	lmHeld bool         // the function-local monitor lock is held
 }
 
 type heldLock struct {
@@ -59,7 +60,7 @@ type heldLock struct {
 }
 
 func (s *State) clone() *State {
-	n := &State{pc: s.pc, heaps: make(map[string]*Term, len(s.heaps)), epoch: s.epoch, held: map[string]*heldLock{}, cells: map[string]Val{}}
+	n := &State{pc: s.pc, heaps: make(map[string]*Term, len(s.heaps)), epoch: s.epoch, held: map[string]*heldLock{}, cells: map[string]Val{}, lmHeld: s.lmHeld}
 	for k, v := range s.heaps {
 		n.heaps[k] = v
 	}
@@ -94,7 +95,9 @@ type VCtx struct {
 	me        *Term // invocation identity (ghost)
 	actionOld *State
 	csCount   int
+	goCount   int
 	heldAtEntry *Term
+	localMon  *localMonState
 	writesZero bool
 	relPkgs   []string
 	gmaps     []*ghostMapInfo
@@ -267,6 +270,31 @@ func (c *VCtx) sliceFacts(n int, seeds []string) []*factRec {
 		cone[s] = true
 	}
 	inc := make([]bool, n)
+	// definitions by defined symbol (a non-definitional fact about a named value is relevant when the
+	// value's definition mentions relevant symbols)
+	defs := map[string][]int{}
+	for i := 0; i < n; i++ {
+		if d := c.facts[i].defines; d != "" {
+			defs[d] = append(defs[d], i)
+		}
+	}
+	var viaDef func(s string, depth int) bool
+	viaDef = func(s string, depth int) bool {
+		if depth > 4 {
+			return false
+		}
+		for _, i := range defs[s] {
+			for _, t := range c.facts[i].syms {
+				if t == s {
+					continue
+				}
+				if cone[t] || viaDef(t, depth+1) {
+					return true
+				}
+			}
+		}
+		return false
+	}
 	for changed := true; changed; {
 		changed = false
 		for i := 0; i < n; i++ {
@@ -282,6 +310,14 @@ func (c *VCtx) sliceFacts(n int, seeds []string) []*factRec {
 					if cone[s] {
 						take = true
 						break
+					}
+				}
+				if !take {
+					for _, s := range f.syms {
+						if len(defs[s]) > 0 && viaDef(s, 0) {
+							take = true
+							break
+						}
 					}
 				}
 				if len(f.syms) == 0 {
@@ -874,7 +910,12 @@ func (c *VCtx) mergeStates(ins []*State) (*State, []*Term) {
 	for i, s := range ins {
 		guards[i] = s.pc
 	}
-	st := &State{heaps: map[string]*Term{}, held: map[string]*heldLock{}, cells: map[string]Val{}}
+	st := &State{heaps: map[string]*Term{}, held: map[string]*heldLock{}, cells: map[string]Val{}, lmHeld: true}
+	for _, s := range ins {
+		if !s.lmHeld {
+			st.lmHeld = false
+		}
+	}
 	for k, v := range ins[0].cells {
 		same := true
 		for _, s := range ins[1:] {
